@@ -52,6 +52,11 @@ def collinear_case(rng, kind, n):
         m2 = max(1, n - 1 - m1)
         xa, ra = arm(m1)
         xb, rb = arm(m2)
+        if kind == "arms-mirror":            # the second arm is the mirror image of (the beginning of) the first one
+            k = min(len(xa), len(xb))
+            xb[:k], rb[:k] = xa[:k], ra[:k]
+            for j in range(k, len(xb)):
+                xb[j] = max(xb[j], xb[j - 1] + max(rb[j - 1], rb[j]) + 1 / 8)
         rb[0] = ra[0]
         # second arm's first spacing must respect the root radius
         if xb[1] < max(rb[0], rb[1]):
@@ -60,7 +65,7 @@ def collinear_case(rng, kind, n):
         xs = xa + [-x for x in xb[1:]]
         rs = ra + rb[1:]
         pids = [-1] + list(range(m1)) + [0] + list(range(m1 + 1, m1 + m2))
-    return {"class": kind, "n": len(xs), "pids": pids, "types": [1] + [3] * (len(xs) - 1),
+    return {"class": "arms" if kind == "arms-mirror" else kind, "n": len(xs), "pids": pids, "types": [1] + [3] * (len(xs) - 1),
             "xyz": [[x, 0.0, 0.0] for x in xs], "r": rs}
 
 
@@ -124,6 +129,10 @@ class TreeVol(Suite):
             for _ in range(1 if not big else 4):
                 t = collinear_case(rng, "arms", n)
                 out.append({"class": "arms", "tree": t, "levels": [1, 2, 3, 4] + ([5] if rng.random() < 0.5 or big else []), "collinear": True})
+        # roots whose two arms are mirror images of each other (the three-point-soma layout): every level incl. the first one with a pair term
+        for n in [3, 5] + ([7, 9] if big else []):
+            t = collinear_case(rng, "arms-mirror", n)
+            out.append({"class": "arms", "tree": t, "levels": [1, 2, 3, 4, 5], "collinear": True, "mirror": True})
         # far from the origin (coordinates ~1e6, compartments a few units long): tolerance-based "same point"
         # tests must not confuse the two ends of a compartment
         for n in [2, 3, 5]:
